@@ -137,6 +137,15 @@ class Replayer:
         if op == "RunStep":
             if "handled" in parts:
                 bad += cmp_handled(h["handled"], m._handled, h.get("gone", ()))
+                if "estats" in h:       # the data collector counts exactly the events that were delivered in this step
+                    t = h["t100"] / 100.0
+                    got = {}
+                    for k, v in m.data_collector.event_statistics.items():
+                        if abs(k - t) < 1e-9:
+                            got = dict(v)
+                    exp = {n: c for n, c in h["estats"].items() if c > 0}
+                    if got != exp:
+                        bad.append(("event_statistics at t=%s" % t, exp, got))
             if "calls" in parts:
                 e_c, g_c = _strip(h["calls"], h), _strip(m._calls, h)
                 if e_c != g_c:
